@@ -17,17 +17,32 @@ theorem step_prog (s : MState) (op : Op) (p : Prog Out) (h : op.prog s = some p)
   cases op <;> simp_all [step, Op.prog, runSeq]
 
 theorem step_noprog (s : MState) (op : Op) (h : op.prog s = none) :
-    (step s op).1.ss.store = s.ss.store ∧ (step s op).1.ss.next = s.ss.next ∧
+    (step s op).1.ss.store.codes = s.ss.store.codes ∧ (step s op).1.ss.store.access = s.ss.store.access ∧
+    (step s op).1.ss.store.refresh = s.ss.store.refresh ∧ (step s op).1.ss.store.rtIdx = s.ss.store.rtIdx ∧
+    (step s op).1.ss.next = s.ss.next ∧
     (∀ a r i e sc, (step s op).2.1 ≠ .tokens a r i e sc) := by
   cases op <;> simp_all [step, Op.prog]
+  all_goals (split <;> simp)
 
-/-- any store property preserved by every storage call (and not mentioning the client table or
-    the clock) is preserved by every operation -/
+/-- any store property preserved by every storage call, and not mentioning the client table, the
+    device table or the OIDC session table (which the consent application edits directly), is
+    preserved by every operation -/
 theorem step_preserves (P : SState → Prop) (hP : ∀ ss c, P ss → P (ss.exec c).1)
-    (hC : ∀ ss cl, P ss → P { ss with clients := cl }) (s : MState) (op : Op) (h : P s.ss) : P (step s op).1.ss := by
+    (hC : ∀ ss cl, P ss → P { ss with clients := cl })
+    (hD : ∀ ss dev oidc, P ss → P { ss with store := { ss.store with device := dev, oidc := oidc } })
+    (s : MState) (op : Op) (h : P s.ss) : P (step s op).1.ss := by
   cases hp : op.prog s with
   | some p => rw [(step_prog s op p hp).1]; exact run_preserves {} plain_default P hP p _ h
   | none =>
-    cases op <;> simp_all [step, Op.prog] <;> exact hC _ _ h
+    cases op with
+    | setCfg c => exact h
+    | setClient c => exact hC _ _ h
+    | advance d => exact h
+    | deviceDecide sig acc gs ga sub =>
+      simp only [step]
+      cases hl : alookup s.ss.store.device sig with
+      | none => exact h
+      | some d => exact hD _ _ _ h
+    | _ => simp [Op.prog] at hp
 
 end Fosite.Model
